@@ -194,6 +194,11 @@ func init() {
 					vals[nme] = dv.go_
 					bound[nme] = dv
 				}
+				// names in the supplied map that are not variables of the configuration (operators or unused values
+				// passed along, as RegVarAndOp-style callers do): they must not disturb any registered variable
+				for j, nx := 0, r.Intn(7); j < nx; j++ {
+					vals[fmt.Sprintf("zz_extra%d", j)] = int64(1000 + j)
+				}
 				var bnames []string
 				for nme := range bound {
 					bnames = append(bnames, nme)
